@@ -212,6 +212,20 @@ macro_rules! float_entries { ($v:ident, $F:ty, $ft:expr, $WD:ident) => {{
         ent!($v, "SkewNormal", $ft, "-", [l, sc, sh], SkewNormal::<F>::new(l, sc, sh).ok().and_then(b::<_, F>)); }
     for (m, l) in [(1.0 as F, 1.0 as F), (1e-3, 1e3), (1e3, 1e-3), (2.0, 5.0)] {
         ent!($v, "InverseGaussian", $ft, "-", [m, l], InverseGaussian::<F>::new(m, l).ok().and_then(b::<_, F>)); }
+    // ulp siblings: neighbouring entries whose shape parameters are adjacent floats (state keyed on an approximately equal
+    // parameter would collide), one family after the other so that the sibling pairing finds them
+    for sh in [0.6 as F, ulp_up(0.6)] { ent!($v, "Frechet", $ft, "ulp sibling", [1.0 as F, 2.0 as F, sh], Frechet::<F>::new(1.0, 2.0, sh).ok().and_then(b::<_, F>)); }
+    for sh in [0.6 as F, ulp_up(0.6)] { ent!($v, "Weibull", $ft, "ulp sibling", [2.0 as F, sh], Weibull::<F>::new(2.0, sh).ok().and_then(b::<_, F>)); }
+    for sh in [0.6 as F, ulp_up(0.6)] { ent!($v, "Pareto", $ft, "ulp sibling", [2.0 as F, sh], Pareto::<F>::new(2.0, sh).ok().and_then(b::<_, F>)); }
+    for sh in [2.6 as F, ulp_up(2.6)] { ent!($v, "Gamma", $ft, "ulp sibling", [sh, 1.5 as F], Gamma::<F>::new(sh, 1.5).ok().and_then(b::<_, F>)); }
+    for sh in [2.6 as F, ulp_up(2.6)] { ent!($v, "Beta", $ft, "ulp sibling", [sh, 1.7 as F], Beta::<F>::new(sh, 1.7).ok().and_then(b::<_, F>)); }
+    for sh in [2.6 as F, ulp_up(2.6)] { ent!($v, "SkewNormal", $ft, "ulp sibling", [0.5 as F, 2.0 as F, sh], SkewNormal::<F>::new(0.5, 2.0, sh).ok().and_then(b::<_, F>)); }
+    // the other constructors (the value is what matters, not how it was built; a constructor with hidden state shows as a
+    // value that depends on what was constructed before)
+    for (m, cv) in [(2.0 as F, 0.5 as F), (1.0, 2.0)] {
+        ent!($v, "Normal", $ft, "from_mean_cv", [m, cv], Normal::<F>::from_mean_cv(m, cv).ok().and_then(b::<_, F>));
+        ent!($v, "LogNormal", $ft, "from_mean_cv", [m, cv], LogNormal::<F>::from_mean_cv(m, cv).ok().and_then(b::<_, F>)); }
+    ent!($v, "Pert", $ft, "with_mean", [0.0 as F, 8.0 as F, 3.0 as F, 2.0 as F], Pert::<F>::new(0.0, 8.0).with_shape(2.0).with_mean(3.0).ok().and_then(b::<_, F>));
     for (a, be) in [(1.0 as F, 0.0 as F), (2.0, 1.5), (1e2, -99.0), (1e-2, 0.0), (5.0, -4.0)] {
         ent!($v, "NormalInverseGaussian", $ft, "-", [a, be], NormalInverseGaussian::<F>::new(a, be).ok().and_then(b::<_, F>)); }
     let lam_max: F = if $ft == "f32" { 1e7 } else { 1e15 };
